@@ -42,269 +42,367 @@ def _consts(ctx):
     return out
 
 
-def _dp_loops(f):
-    body = body_nodocstring(f)
-    for s in body:
-        if isinstance(s, ast.For):
-            l2 = [x for x in s.body if isinstance(x, ast.For)]
-            if len(l2) == 1:
-                l3 = [x for x in l2[0].body if isinstance(x, ast.For)]
-                if len(l3) == 1:
-                    return s, l2[0], l3[0]
-    raise shape_error('optimalPartition: triple DP loop not found', f.loc())
+def _lists(n):
+    """all strictly increasing index lists from 0 to n-1"""
+    out = []
+    for r in range(n - 1):
+        for mid in itertools.combinations(range(1, n - 1), r):
+            out.append([0] + list(mid) + [n - 1])
+    return out
 
 
-def rule_D(ctx):
-    """C12.D the direction argument selects min or max; value and split point co-updated"""
+def _segs(lst):
+    return list(zip(lst[:-1], lst[1:]))
+
+
+def _sym(n, cells, dtype='float'):
+    """symmetric cost matrix over the n candidates 0..n-1, in the repository's convention: one extra (unused, zero) row and
+    column - optimalPartition works on the leading shape[0]-1 indices, as its callers build it"""
+    from .. import npstub
+    rows = [[0] * (n + 1) for _ in range(n + 1)]
+    for (i, j), v in cells.items():
+        rows[i][j] = v
+        rows[j][i] = v
+    return npstub.make(rows, dtype)
+
+
+def _harness(ctx):
+    from .. import absint, npstub
+    stubs = dict(npstub.stubs())
+    stubs['progressbar'] = lambda x, **k: x
+    stubs['deepcopy'] = absint.deep_copy
+    fn = absint.funcs(ctx, SEG, stubs)
+    return fn
+
+
+def _as_indices(res):
+    from .. import npstub
+    if isinstance(res, npstub.Arr):
+        res = res.tolist_flat()
+    if not isinstance(res, (list, tuple)):
+        return None
+    out = []
+    for v in res:
+        if isinstance(v, bool) or not isinstance(v, (int, float)) or v != int(v):
+            return None
+        out.append(int(v))
+    return out
+
+
+def rule_X(ctx):
+    """C12.D/R/B the whole dynamic programme (optimalPartition -> backward -> backtracking) interpreted on case domains"""
     f = ctx.prog.func(SEG + '.optimalPartition')
     consts = _consts(ctx)
-    ldiag, li, lk = _dp_loops(f)
-    mode_param = f.params[1]
-    dv, iv, kv = ldiag.target.id, li.target.id, lk.target.id
-    reads = {x.value.id for x in ast.walk(lk) if isinstance(x, ast.Subscript) and isinstance(x.ctx, ast.Load)
-             and isinstance(x.value, ast.Name) and isinstance(x.slice, ast.Tuple)}
-    stores = {x.value.id for x in ast.walk(lk) if isinstance(x, ast.Subscript) and isinstance(x.ctx, ast.Store)
-              and isinstance(x.value, ast.Name) and isinstance(x.slice, ast.Tuple)}
-    val_t = sorted(reads & stores)
-    ptr_t = sorted(stores - reads)
-    if len(val_t) != 1 or len(ptr_t) != 1:
-        raise shape_error('optimalPartition: cannot identify value/split tables', f.loc(lk))
-    bad = []
-    n = 0
-    # interval (1, 4): two split candidates k = 2, 3 examined in sequence (stale-accumulator slips need two)
+    fn = _harness(ctx)
+    call = orders.make_func(f.node, fn)
+    run = __import__('tlint.absint', fromlist=['guard']).guard(f, 'optimalPartition')
+    params = f.params
+    has_verbose = 'verbose' in params
+    n_cases = 0
+    bad = {'order': [], 'unique': [], 'alias': [], 'dtype': [], 'form': []}
+
+    def invoke(C, mval):
+        kw = {'verbose': False} if has_verbose else {}
+        try:
+            return run(lambda: call(C, mval, **kw)), None
+        except (IndexError, KeyError, ZeroDivisionError, TypeError, ValueError, AttributeError, RecursionError, orders.Raised) as ex:
+            return None, '%s: %s' % (type(ex).__name__, str(ex)[:200])
+
+    def judge(kind, n, cells, mname, mval, want_min, label, dtype='float'):
+        nonlocal n_cases
+        n_cases += 1
+        C = _sym(n, cells, dtype)
+        before = C.tolist()
+        res, exc = invoke(C, mval)
+        lists = _lists(n)
+        sums = {tuple(l): sum(cells[s] for s in _segs(l)) for l in lists}
+        best = (min if want_min else max)(sums.values())
+        got = _as_indices(res) if exc is None else None
+        okform = got is not None and len(got) >= 2 and got[0] == 0 and got[-1] == n - 1 and all(a < b for a, b in zip(got, got[1:]))
+        if n == 1:
+            okform = got == [0] or okform
+        if not okform:
+            if len(bad['form']) < 4:
+                bad['form'].append({'n': n, 'mode': mname, 'case': label, 'returned': repr(res) if exc is None else exc,
+                                    'expected': 'a strictly increasing list from 0 to %d' % (n - 1)})
+        elif n >= 2 and sums[tuple(got)] != best:
+            if len(bad[kind]) < 4:
+                bad[kind].append({'n': n, 'mode': mname, 'case': label, 'returned': got, 'its summed cost': sums[tuple(got)],
+                                  'optimum': best, 'an optimal list': [list(l) for l, v in sums.items() if v == best][0],
+                                  'segment costs': {'%d-%d' % k: v for k, v in sorted(cells.items())}})
+        if C.tolist() != before and len(bad['alias']) < 3:
+            diff = [(i, j) for i in range(n + 1) for j in range(n + 1) if C.tolist()[i][j] != before[i][j]]
+            bad['alias'].append({'n': n, 'mode': mname, 'cells of the caller\'s matrix overwritten': diff[:6],
+                                 'why': 'the programme updates its value table in place; a table that is (a view of) the argument destroys the '
+                                        'caller\'s costs, so a second call on the same matrix optimises garbage'})
+
     for mname, mval in consts.items():
         want_min = mname.endswith('MINIMIZE')
-        for o in orders.weak_orderings(['cur', 'v2', 'v3']):
-            cur, v2, v3 = 10 + o['cur'], 10 + o['v2'], 10 + o['v3']
-            D = Table('D', {(1, 2): 0, (2, 4): v2, (1, 3): 0, (3, 4): v3, (1, 4): cur})
-            M = Table('M', {(1, 4): -1})
-            env = dict(consts)
-            env.update({mode_param: mval, iv: 1, dv: 3, val_t[0]: D, ptr_t[0]: M})
-            try:
-                orders.run_block(li.body, env)
-            except orders.Unsupported as e:
-                raise shape_error('optimalPartition cell update not interpretable: %s' % e, f.loc(lk))
-            n += 1
-            best = min(cur, v2, v3) if want_min else max(cur, v2, v3)
-            got_d, got_m = D.read((1, 4)), M.read((1, 4))
-            if best == cur:
-                ok_m = got_m == -1
-            else:
-                ok_m = got_m in [k for k, v in ((2, v2), (3, v3)) if v == best]
-            if (got_d != best or not ok_m) and len(bad) < 6:
-                bad.append({'mode': mname, 'ordering of (current, candidate k=2, candidate k=3)': orders.describe(o),
-                            'after both candidates (D[i,j], M[i,j])': [got_d, got_m], 'expected D[i,j]': best,
-                            'expected split': 'none' if best == cur else 'a candidate attaining it'})
-    ctx.check(not bad, 'C12.D', f,
-              'for mode=MINIMIZE the cell keeps the smaller of candidate/current, for MAXIMIZE the larger; the split '
-              'point is recorded exactly when the value changes (2 modes x 13 orderings of the current value and two successive candidates)',
-              witness={'counter-examples': bad}, node=lk, key='direction')
-    ctx.extra['cases_interpreted'] = n
-
-
-def rule_R(ctx):
-    """C12.R recurrence ranges and initialisation"""
-    f = ctx.prog.func(SEG + '.optimalPartition')
-    body = body_nodocstring(f)
-    ldiag, li, lk = _dp_loops(f)
-    w = Walker(f, loop_mode='skip')
-    pre = [o for o in w.run(body[:body.index(ldiag)], State({f.params[2]: Rat.const(0)})) if o.kind == 'fall']
-    if not pre:
-        raise shape_error('optimalPartition prologue', f.loc())
-    st = pre[0].state
-    from .c18 import _resolve_range
-    rd = _resolve_range(f, ldiag.iter)
-    if rd is None:
-        raise shape_error('diag loop is not a range', f.loc(ldiag))
-    # size symbol N: the dimension used to allocate D
-    dlo, dhi, dstep = w.range_info(rd, st)
-    N = dhi
-    ctx.check(isinstance(dlo, Rat) and dlo.isconst() and 0 <= dlo.constval() <= 2 and w.rel.is_zero(dstep - Rat.const(1)),
-              'C12.R', f, 'diagonals are processed in increasing order starting at 2 (or lower)',
-              witness={'range': [repr(dlo), repr(dhi), repr(dstep)]}, node=ldiag, key='diag-lo')
-    # N must be the table size
-    # the value table and the split table of the DP
-    reads = {x.value.id for x in ast.walk(lk) if isinstance(x, ast.Subscript) and isinstance(x.ctx, ast.Load)
-             and isinstance(x.value, ast.Name) and isinstance(x.slice, ast.Tuple)}
-    stores_ = {x.value.id for x in ast.walk(lk) if isinstance(x, ast.Subscript) and isinstance(x.ctx, ast.Store)
-               and isinstance(x.value, ast.Name) and isinstance(x.slice, ast.Tuple)}
-    val_t, ptr_t = sorted(reads & stores_), sorted(stores_ - reads)
-    if len(val_t) != 1 or len(ptr_t) != 1:
-        raise shape_error('optimalPartition: cannot identify value/split tables', f.loc(lk))
-    defs = st.env.get('__defs__', {})
-    cm = f.params[0]
-    ddef = defs.get(val_t[0])
-    dval = st.env.get(val_t[0])
-    dtext = ddef if ddef is not None else (dval.single_atom() if isinstance(dval, Rat) else repr(dval))
-    FRESH = ('np.zeros(', 'np.ones(', 'np.full(', 'np.empty(', 'np.array(', 'np.copy(', 'copy.deepcopy(')
-    fresh = dtext is not None and (dtext.startswith(FRESH) or dtext.endswith('.copy()') or '.astype(' in dtext)
-    if not fresh and dtext is not None and cm in dtext:
-        ctx.violation('C12.R', f, 'the DP works on a private table: it must not write into the caller\'s cost matrix',
-                      {'table': val_t[0], 'defined as': dtext,
-                       'why': 'this expression can be a view of the argument (asarray/slicing/identity do not copy); '
-                              'the updates D[i,j] = ... then overwrite the caller\'s matrix, so a second call on the '
-                              'same matrix (e.g. the other direction) optimises garbage'},
-                      node=lk, key='alias')
-    elif not fresh:
-        raise shape_error('optimalPartition: definition of the value table not understood: %s' % dtext, f.loc())
-    else:
-        ctx.ok('C12.R', f, 'the DP value table is a fresh allocation (%s)' % dtext[:40], node=ldiag)
-    if dtext is not None and dtext.startswith('np.zeros('):
-        okN = dtext == 'np.zeros((%s, %s))' % (repr(N), repr(N))
-        ctx.check(okN, 'C12.R', f, 'the last diagonal processed is size-1 (range end == table size)',
-                  witness={'range end': repr(N), 'table': dtext}, node=ldiag, key='diag-hi')
-    st2 = st.fork()
-    dv, iv, kv = ldiag.target.id, li.target.id, lk.target.id
-    st2.env[dv] = Rat.atom(dv)
-    ri = w.range_info(li.iter, st2)
-    ctx.check(ri is not None and w.rel.is_zero(ri[0]) and w.rel.is_zero(ri[1] - (N - Rat.atom(dv))) and
-              w.rel.is_zero(ri[2] - Rat.const(1)), 'C12.R', f,
-              'every cell of a diagonal is processed: i in [0, size - diag)',
-              witness={'range': [repr(x) for x in ri] if ri else None}, node=li, key='i-range')
-    st2.env[iv] = Rat.atom(iv)
-    stk = [o for o in w.run([s for s in li.body if s is not lk], st2) if o.kind == 'fall'][0].state
-    rk = w.range_info(lk.iter, stk)
-    # j: the second index of the cell written
-    stores = [x for x in ast.walk(lk) if isinstance(x, ast.Subscript) and isinstance(x.ctx, ast.Store)
-              and isinstance(x.slice, ast.Tuple)]
-    if not stores:
-        raise shape_error('no store in k-loop', f.loc(lk))
-    ci = w.ex(stores[0].slice.elts[0], stk)
-    cj = w.ex(stores[0].slice.elts[1], stk)
-    ctx.check(w.rel.is_zero(ci - Rat.atom(iv)) and w.rel.is_zero(cj - Rat.atom(iv) - Rat.atom(dv)), 'C12.R', f,
-              'the cell updated is (i, i + diag)', witness={'cell': [repr(ci), repr(cj)]}, node=lk, key='cell')
-    ctx.check(rk is not None and w.rel.is_zero(rk[0] - ci - Rat.const(1)) and w.rel.is_zero(rk[1] - cj) and
-              w.rel.is_zero(rk[2] - Rat.const(1)), 'C12.R', f,
-              'split candidates are exactly the interior indices k in (i, j)',
-              witness={'range': [repr(x) for x in rk] if rk else None, 'cell': [repr(ci), repr(cj)]}, node=lk,
-              key='k-range')
-    # candidate value = D[i,k] + D[k,j]
-    stk.env[kv] = Rat.atom(kv)
-    stk.events = []
-    outs = list(w.run(lk.body, stk))
-    vals = set()
-    for o in outs:
-        for e in o.state.events:
-            if e.kind == 'store' and isinstance(e.value, Rat) and not e.value.isconst() and e.value.single_atom() != kv:
-                vals.add(repr(e.value))
-    tn = None
-    for x in ast.walk(lk):
-        if isinstance(x, ast.Subscript) and isinstance(x.ctx, ast.Load) and isinstance(x.slice, ast.Tuple) and isinstance(x.value, ast.Name):
-            tn = x.value.id
-    tb = w.base_text(stk.env[tn]) if isinstance(stk.env.get(tn), Rat) else tn
-    exp = Rat.atom('%s[%s, %s]' % (tb, repr(ci), kv)) + Rat.atom('%s[%s, %s]' % (tb, kv, repr(cj)))
-    ctx.check(vals == {repr(exp)}, 'C12.R', f, 'the candidate is D[i,k] + D[k,j]',
-              witness={'values stored': sorted(vals), 'expected': repr(exp)}, node=lk, key='candidate')
-    # initialisation: D[i,j] = cost[i,j], M[i,j] = -1 on the upper triangle
-    inits = [s for s in body[:body.index(ldiag)] if isinstance(s, ast.For) and any(isinstance(x, ast.For) for x in s.body)]
-    okI = False
-    wit = None
-    for l0 in inits:
-        l1 = [x for x in l0.body if isinstance(x, ast.For)][0]
-        s3 = st.fork()
-        s3.events = []
-        s3.env[l0.target.id] = Rat.atom(l0.target.id)
-        r0 = w.range_info(l0.iter, st)
-        r1 = w.range_info(l1.iter, s3)
-        s3.env[l1.target.id] = Rat.atom(l1.target.id)
-        o3 = [o for o in w.run(l1.body, s3)]
-        if len(o3) != 1:
-            continue
-        evs = [e for e in o3[0].state.events if e.kind == 'store']
-        a, b = l0.target.id, l1.target.id
-        idx = '%s, %s' % (a, b)
-        def ix(e):
-            return ', '.join(repr(x) for x in e.index) if isinstance(e.index, tuple) else str(e.index)
-        cm = f.params[0]
-        okv = any(ix(e) == idx and isinstance(e.value, Rat) and e.value.single_atom() == '%s[%s]' % (cm, idx) for e in evs)
-        okm = any(ix(e) == idx and isinstance(e.value, Rat) and e.value.isconst() and e.value.constval() < 0 for e in evs)
-        okr = r0 and r1 and w.rel.is_zero(r0[0]) and w.rel.is_zero(r0[1] - N) and w.rel.is_zero(r1[1] - N) and \
-            (w.rel.is_zero(r1[0] - Rat.atom(a)) or w.rel.is_zero(r1[0]))
-        wit = {'stores': [repr(e) for e in evs], 'ranges': [[repr(x) for x in r0] if r0 else None, [repr(x) for x in r1] if r1 else None]}
-        if okv and okm and okr:
-            okI = True
-    if dtext is not None and dtext.startswith('np.zeros('):
-        if not okI and wit is None:
-            raise shape_error('optimalPartition: initialisation of D/M not understood', f.loc())
-        ctx.check(okI, 'C12.R', f, 'initially D = cost and M = -1 (negative = no split) on the whole upper triangle',
-                  witness=wit, node=f.node, key='init')
-    elif fresh and cm in dtext:
-        ctx.ok('C12.R', f, 'D is initialised as a copy of the cost matrix', node=f.node)
-    elif fresh:
-        raise shape_error('optimalPartition: cannot see how D receives the costs', f.loc())
+        # (a) n = 3 and n = 4: every weak ordering of the summed costs of all candidate lists.  Each list owns a private segment
+        #     (0-(n-1); 1-3; 0-2; 1-2 for n = 4), so every ordering is realised by some matrix; all decisions of the interval
+        #     recurrence compare such sums.
+        for n in (3, 4):
+            lists = _lists(n)
+            names = ['L%d' % k for k in range(len(lists))]
+            for o in orders.weak_orderings(names):
+                ranks = [o[nm] for nm in names]
+                if n == 3:
+                    # lists: [0,2], [0,1,2]
+                    cells = {(0, 1): 0, (1, 2): 10 + ranks[lists.index([0, 1, 2])], (0, 2): 10 + ranks[lists.index([0, 2])]}
+                else:
+                    base = 100 if want_min else 0    # adjacent segments; the private segment of each list carries its rank
+                    t = {tuple(l): 3 * base + 10 + ranks[k] for k, l in enumerate(lists)}
+                    cells = {(0, 1): base, (1, 2): 0, (2, 3): base}
+                    cells[(1, 2)] = t[(0, 1, 2, 3)] - 2 * base
+                    cells[(0, 3)] = t[(0, 3)]
+                    cells[(1, 3)] = t[(0, 1, 3)] - base
+                    cells[(0, 2)] = t[(0, 2, 3)] - base
+                judge('order', n, cells, mname, mval, want_min, 'ordering of the list sums: ' + orders.describe(
+                    {'+'.join('%d-%d' % s for s in _segs(l)): ranks[k] for k, l in enumerate(lists)}))
+        # (b) n = 2..6: each candidate list in turn is the unique optimum (its segments cost 1 resp. 10, every other segment 10 resp. 1)
+        for n in (2, 3, 4, 5, 6):
+            for target in _lists(n):
+                tset = set(_segs(target))
+                cells = {(i, j): ((1 if want_min else 10) if (i, j) in tset else (10 if want_min else 1))
+                         for i in range(n) for j in range(i + 1, n)}
+                judge('unique', n, cells, mname, mval, want_min, 'unique optimum %r' % (target,))
+        # (c) a narrow integer matrix whose segment costs fit the type but whose sums do not (the table must not inherit the dtype):
+        #     only judged where the same costs as floats are answered correctly
+        for n, cells in ((3, {(0, 1): 200, (1, 2): 200, (0, 2): 150}),
+                         (4, {(0, 1): 200, (1, 2): 200, (2, 3): 10, (0, 2): 150, (1, 3): 250, (0, 3): 255})):
+            lists = _lists(n)
+            sums = {tuple(l): sum(cells[s_] for s_ in _segs(l)) for l in lists}
+            best = (min if want_min else max)(sums.values())
+            outcome = {}
+            for dt in ('float', 'uint8'):
+                res, exc = invoke(_sym(n, cells, dt), mval)
+                n_cases += 1
+                got = _as_indices(res) if exc is None else None
+                outcome[dt] = (got is not None and tuple(got) in sums and sums[tuple(got)] == best, got if got is not None else (exc or repr(res)))
+            if outcome['float'][0] and not outcome['uint8'][0] and len(bad['dtype']) < 3:
+                bad['dtype'].append({'n': n, 'mode': mname, 'matrix dtype': 'uint8', 'returned': outcome['uint8'][1],
+                                     'optimum': best, 'an optimal list': [list(l) for l, v in sums.items() if v == best][0],
+                                     'the same costs as floats': 'answered correctly',
+                                     'why': 'sums of two uint8 costs stored in a table of the caller\'s dtype wrap modulo 256'})
+    ctx.extra['cases_interpreted'] = n_cases
+    ctx.check(not bad['form'], 'C12.B', f, 'the result is a strictly increasing index list from the first to the last candidate '
+              '(all case matrices, n = 2..6)', witness={'cases': bad['form']}, node=f.node, key='form')
+    ctx.check(not bad['order'], 'C12.D', f,
+              'for every weak ordering of the summed costs of the candidate lists (n = 3: 3 orderings, n = 4: 75 orderings) and both '
+              'directions the returned list attains the minimum (MINIMIZE) resp. the maximum (MAXIMIZE)',
+              witness={'counter-examples': bad['order']}, node=f.node, key='direction')
+    ctx.check(not bad['unique'], 'C12.R', f,
+              'each of the 2^(n-2) candidate lists, made the unique optimum in turn (n = 2..6, both directions), is the one returned: '
+              'every interval and every interior split point is examined and the split table is expanded in full',
+              witness={'counter-examples': bad['unique']}, node=f.node, key='recurrence')
+    ctx.check(not bad['alias'], 'C12.R', f, 'the caller\'s cost matrix is left as it was (the programme works on a private table)',
+              witness={'cases': bad['alias']}, node=f.node, key='alias')
+    ctx.check(not bad['dtype'], 'C12.R', f, 'the value table holds sums exactly whatever the dtype of the caller\'s matrix (uint8 costs whose sums exceed 255)',
+              witness={'cases': bad['dtype']}, node=f.node, key='dtype')
 
 
 def rule_B(ctx):
-    """C12.B expansion of the split table: leaf test on its finite case domain, recursive shape"""
-    fb = ctx.prog.func(SEG + '.backtracking')
+    """C12.B expansion of the split table: backward() interpreted on every consistent split table for n <= 5"""
+    from .. import npstub
     fw = ctx.prog.func(SEG + '.backward')
-    B, pi, pj = fb.params[:3]
-    w = Walker(fb, loop_mode='skip')
-    outs = [o for o in w.run(body_nodocstring(fb), State()) if o.kind == 'return']
-    leaves = [o for o in outs if isinstance(o.value, list)]
-    recs = [o for o in outs if not isinstance(o.value, list)]
-    if not leaves or not recs:
-        raise shape_error('backtracking: expected a leaf return and a recursive return', fb.loc())
-    for o in leaves:
-        ctx.check(len(o.value) == 1 and isinstance(o.value[0], Rat) and o.value[0].single_atom() == pi, 'C12.B', fb,
-                  'a leaf interval contributes its left end [i]', witness={'returned': repr(o.value)}, node=o.node, key='leaf-val')
-    # leaf test on the case domain (split recorded? x gap): comparisons only
-    iff = [s_ for s_ in body_nodocstring(fb) if isinstance(s_, ast.If)]
-    if len(iff) != 1 or not any(isinstance(n_, ast.Return) and isinstance(n_.value, ast.List) for n_ in iff[0].body):
-        raise shape_error('backtracking: leaf test not found', fb.loc())
+    fn = _harness(ctx)
+    call = orders.make_func(fw.node, fn)
+    run = __import__('tlint.absint', fromlist=['guard']).guard(fw, 'backward')
+
+    def expand(M, i, j):
+        m = M.get((i, j), -1)
+        if m < 0:
+            return [i]
+        return expand(M, i, m) + expand(M, m, j)
     bad = []
-    for gap in (1, 2, 3, 4):
-        for split in [-1] + list(range(1, gap)):
-            T = Table(B, {(0, gap): float(split)})
+    n_tab = 0
+    for n in (2, 3, 4, 5):
+        cells = [(i, j) for d in range(2, n) for i in range(n - d) for j in [i + d]]
+        for choice in itertools.product(*[[-1] + list(range(i + 1, j)) for i, j in cells]):
+            M = dict(zip(cells, choice))
+            rows = [[-1.0] * n for _ in range(n)]
+            for (i, j), v in M.items():
+                rows[i][j] = float(v)
+            A = npstub.make(rows, 'float')
+            n_tab += 1
             try:
-                leaf = bool(orders.ev(iff[0].test, {B: T, pi: 0, pj: gap}))
-            except orders.Unsupported as e:
-                raise shape_error('leaf test not interpretable: %s' % e, fb.loc(iff[0]))
-            want = split < 0
-            if leaf != want:
-                bad.append({'interval': [0, gap], 'recorded split': split, 'treated as leaf': leaf})
-    ctx.check(not bad, 'C12.B', fb,
-              'an interval is a leaf exactly when no split point is recorded for it (every recorded split is expanded)',
-              witness={'wrong cases': bad[:5]}, node=iff[0], key='leaf-test')
-    for o in recs:
-        rv = o.node.value
-        okr = isinstance(rv, ast.BinOp) and isinstance(rv.op, ast.Add) and isinstance(rv.left, ast.Call) and \
-            isinstance(rv.right, ast.Call) and getattr(rv.left.func, 'id', None) == fb.name and \
-            getattr(rv.right.func, 'id', None) == fb.name
-        if not okr:
-            raise shape_error('backtracking: recursive return is not bt(...) + bt(...)', fb.loc(o.node))
-        la = [w.ex(a, o.state) for a in rv.left.args]
-        ra = [w.ex(a, o.state) for a in rv.right.args]
-        mid = 'int(%s[%s, %s])' % (B, pi, pj)
-        def nm(v):
-            return v.single_atom() if isinstance(v, Rat) else repr(v)
-        ok = [nm(x) for x in la] == [B, pi, mid] and [nm(x) for x in ra] == [B, mid, pj]
-        ctx.check(ok, 'C12.B', fb, 'otherwise the result is expand(i, m) followed by expand(m, j), m the recorded split of (i, j)',
-                  witness={'left call': [nm(x) for x in la], 'right call': [nm(x) for x in ra]}, node=o.node, key='rec')
-    wb = Walker(fw, loop_mode='skip')
-    bo = [o for o in wb.run(body_nodocstring(fw), State()) if o.kind == 'return']
-    rv = bo[0].node.value if len(bo) == 1 else None
-    okb = isinstance(rv, ast.BinOp) and isinstance(rv.op, ast.Add) and isinstance(rv.left, ast.Call) and \
-        getattr(rv.left.func, 'id', None) == fb.name and isinstance(rv.right, ast.List) and len(rv.right.elts) == 1
-    if okb:
-        Bn = fw.params[0]
-        la = [wb.ex(a, bo[0].state) for a in rv.left.args]
-        last = wb.ex(rv.right.elts[0], bo[0].state)
-        n1 = Rat.atom('%s.shape[0]' % Bn) - Rat.const(1)
-        okb = isinstance(la[0], Rat) and la[0].single_atom() == Bn and wb.rel.is_zero(la[1]) and \
-            wb.rel.is_zero(la[2] - n1) and wb.rel.is_zero(last - n1)
-    ctx.check(okb, 'C12.B', fw, 'backward(M) = expand(0, n-1) + [n-1]: from the first to the last candidate',
-              witness={'return': unparse(rv) if rv is not None else None}, node=fw.node, key='backward')
-    f = ctx.prog.func(SEG + '.optimalPartition')
-    rets = [s for s in ast.walk(f.node) if isinstance(s, ast.Return) and s.value is not None]
-    ldiag, li, lk = _dp_loops(f)
-    ptr = sorted({x.value.id for x in ast.walk(lk) if isinstance(x, ast.Subscript) and isinstance(x.ctx, ast.Store)
-                  and isinstance(x.value, ast.Name)} -
-                 {x.value.id for x in ast.walk(lk) if isinstance(x, ast.Subscript) and isinstance(x.ctx, ast.Load)
-                  and isinstance(x.value, ast.Name)})
-    ok = len(rets) == 1 and len(ptr) == 1 and unparse(rets[0].value) == 'backward(%s)' % ptr[0]
-    ctx.check(ok, 'C12.B', f, 'optimalPartition returns backward(split table)',
-              witness={'return': unparse(rets[0].value) if rets else None}, node=f.node, key='ret')
+                got = _as_indices(run(lambda: call(A)))
+            except (IndexError, KeyError, TypeError, ValueError, RecursionError) as ex:
+                got = '%s: %s' % (type(ex).__name__, str(ex)[:200])
+            want = expand(M, 0, n - 1) + [n - 1]
+            if got != want and len(bad) < 5:
+                bad.append({'n': n, 'recorded splits': {'%d-%d' % k: v for k, v in M.items() if v >= 0}, 'returned': got, 'expected': want})
+    ctx.extra['split_tables_interpreted'] = n_tab
+    ctx.check(not bad, 'C12.B', fw,
+              'backward(M) expands every recorded split point, recursively, into the increasing list from 0 to n-1 '
+              '(all %d consistent split tables for n <= 5)' % n_tab, witness={'wrong expansions': bad}, node=fw.node, key='expand')
+
+
+def rule_S(ctx):
+    """C12.C the delegation chain simplify -> optimalSimplification -> optimalSegmentation -> optimalPartition, interpreted with a
+    recording stand-in for the dynamic programme: direction, matrix and global parameter as documented"""
+    from .. import absint, npstub
+    consts = _consts(ctx)
+    MIN, MAX = consts['MODE_SEGMENTATION_MINIMIZE'], consts['MODE_SEGMENTATION_MAXIMIZE']
+    msim = ctx.prog.module(SIM)
+    fs = ctx.prog.func(SIM + '.simplify')
+    fseg = ctx.prog.func(SEG + '.optimalSegmentation')
+    n = 6
+
+    class ObsS(orders.PyStub):
+        def __init__(self, k):
+            self.k = k
+
+        def copy(self):
+            return ObsS(self.k)
+
+    class TrackS(orders.PyStub):
+        isa = ('Track',)
+
+        def __init__(self, *a, **kw):
+            self.obs = [ObsS(k) for k in range(n)] if kw.pop('_full', False) else []
+            self.uid, self.tid, self.base = kw.get('user_id', 'U'), kw.get('track_id', 'T'), kw.get('base', None)
+
+        def size(self):
+            return len(self.obs)
+
+        def __len__(self):
+            return len(self.obs)
+
+        def getObs(self, i):
+            if not isinstance(i, int) or not -len(self.obs) <= i < len(self.obs):
+                raise IndexError('getObs(%r)' % (i,))
+            return self.obs[i]
+
+        def __getitem__(self, i):
+            return self.getObs(i)
+
+        def addObs(self, o):
+            self.obs.append(o)
+
+        def copy(self):
+            t = TrackS()
+            t.obs = [o.copy() for o in self.obs]
+            return t
+
+    def run_chain(entry, make_args, module):
+        """interpret `entry` with optimalPartition replaced by a recorder; returns (records, cost calls, result, exception text)"""
+        rec, calls = [], []
+        stubs = dict(npstub.stubs())
+        stubs['progressbar'] = lambda x, **k: x
+        stubs['Track'] = TrackS
+
+        def partition(cm, mode=MIN, verbose=True):
+            rec.append((cm, mode))
+            return [0, 2, n - 2] if False else [0, n - 2]
+        stubs['optimalPartition'] = partition
+        # the library's own cost functions (formals track, i, j[, parameter]) are replaced by stand-ins: their values do not matter here
+        for q, fi in ctx.prog.functions.items():
+            if q.startswith(SIM + '.') and fi.cls is None and len(fi.params) >= 3 and fi.params[1:3] == ['i', 'j']:
+                def standin(track, i, j, *p, _nm=fi.name, _np=len(fi.params)):
+                    if len(p) + 3 != _np:
+                        raise TypeError('%s() takes %d positional arguments but %d were given' % (_nm, _np, len(p) + 3))
+                    calls.append((i, j, p[0] if p else 'no parameter'))
+                    return cost_value(i, j)
+                stubs[fi.name] = standin
+        fn = absint.funcs(ctx, module, stubs)
+        # functions of the sibling module are reached through the star imports
+        for q in (SEG + '.optimalSegmentation', SIM + '.optimalSimplification'):
+            fi = ctx.prog.maybe_func(q)
+            if fi is not None and fi.name not in stubs:
+                fn[fi.name] = orders.make_func(fi.node, absint.funcs(ctx, q.rsplit('.', 1)[0], stubs))
+        try:
+            res = orders.make_func(entry.node, fn)(*make_args(calls))
+            return rec, calls, res, None
+        except orders.Unsupported as ex:
+            raise shape_error('%s not interpretable: %s' % (entry.name, ex), entry.loc())
+        except (TypeError, IndexError, KeyError, ValueError, AttributeError, ZeroDivisionError, orders.Raised) as ex:
+            return rec, calls, None, '%s: %s' % (type(ex).__name__, ex)
+
+    def cost_value(i, j):
+        return -7.0 + 3 * i + 5 * j if (i + j) % 2 else 4.0 + i + 2 * j      # both signs, pairwise distinct enough
+
+    # (1) optimalSegmentation: mode forwarded; matrix = the costs as returned (any sign), mirrored; global parameter passed iff not None
+    for gp, label in ((None, 'None'), (0, '0 (a legitimate parameter)'), (2.5, '2.5')):
+        for mval, mname in ((MIN, 'MINIMIZE'), (MAX, 'MAXIMIZE')):
+            def args(calls, gp=gp, mval=mval):
+                def cost3(track, i, j):
+                    calls.append((i, j, 'no parameter'))
+                    return cost_value(i, j)
+
+                def cost4(track, i, j, p):
+                    calls.append((i, j, p))
+                    return cost_value(i, j)
+                t = TrackS(_full=True)
+                params = fseg.params
+                kw = [t, cost3 if gp is None else cost4, gp, mval]
+                if 'verbose' in params:
+                    kw.append(False)
+                return kw
+            rec, calls, res, exc = run_chain(fseg, args, SEG)
+            okcall = exc is None and len(rec) == 1
+            ctx.check(okcall, 'C12.C', fseg, 'optimalSegmentation(glob_param=%s, %s) evaluates the cost function in the form that fits the '
+                      'global parameter and runs the dynamic programme once' % (label, mname),
+                      witness={'outcome': exc or ('%d calls of optimalPartition' % len(rec)),
+                               'why': 'a cost function taking the global parameter must receive it whenever it is not None - 0 included'},
+                      node=fseg.node, key='gp:%s' % (gp is not None))
+            if not okcall:
+                continue
+            cm, got_mode = rec[0]
+            ctx.check(got_mode == mval, 'C12.C', fseg, 'optimalSegmentation forwards its mode argument to optimalPartition',
+                      witness={'requested': mname, 'value passed': repr(got_mode)}, node=fseg.node, key='fwd-mode')
+            okp = all(c[2] == ('no parameter' if gp is None else gp) for c in calls)
+            ctx.check(okp, 'C12.C', fseg, 'the global parameter reaches the cost function unchanged', witness={'calls': calls[:4], 'expected': label},
+                      node=fseg.node, key='gp-val:%s' % (gp is not None))
+            wrong = []
+            if isinstance(cm, npstub.Arr) and len(cm.shape) == 2:
+                rows = cm.tolist()
+                seen = {(i, j): cost_value(i, j) for (i, j, _) in calls}
+                for (i, jm1), v in sorted(seen.items()):
+                    j = jm1 + 1
+                    if i < j < len(rows) and (rows[i][j] != v or rows[j][i] != v):
+                        wrong.append({'cell': [i, j], 'cost returned for segment (%d, %d)' % (i, jm1): v, 'matrix holds': [rows[i][j], rows[j][i]]})
+            else:
+                wrong.append({'matrix': repr(cm)[:80]})
+            ctx.check(not wrong, 'C12.C', fseg, 'the matrix handed to the dynamic programme holds, symmetrically, the costs exactly as the cost '
+                      'function returned them (negative values included)', witness={'cells': wrong[:4]}, node=fseg.node, key='sym-clip')
+    # (2) simplify: every mode served by the dynamic programme optimises in the direction its name documents
+    modes = {k: v.value for k, v in msim.consts.items() if k.startswith('MODE_SIMPLIFY_') and isinstance(v, ast.Constant)}
+    want = {}
+    for k, v in modes.items():
+        if 'MAXIMIZE' in k:
+            want[k] = MAX
+        elif 'MINIMIZE' in k or k.endswith('_FREE') or 'PRECLUDE' in k:
+            want[k] = MIN
+    if len(want) < 2:
+        raise shape_error('simplify: mode constants served by optimal simplification not found', fs.loc())
+    served = 0
+    for k, direction in sorted(want.items()):
+        def args(calls, k=k):
+            def usercost(track, i, j, *p):
+                calls.append((i, j, p[0] if p else 'no parameter'))
+                return cost_value(i, j)
+            t = TrackS(_full=True)
+            a = [t, usercost if 'FREE' in k else 1.5, modes[k]]
+            if 'verbose' in fs.params:
+                a.append(False)
+            return a
+        # private cost functions of the module: stand-ins (their values do not matter here)
+        rec, calls, res, exc = run_chain(fs, args, SIM)
+        if exc is not None and 'free name' in exc:
+            raise shape_error('simplify not interpretable: %s' % exc, fs.loc())
+        if exc is None and not rec:
+            continue        # this mode is not served by the dynamic programme
+        served += 1
+        ok = exc is None and len(rec) == 1 and rec[0][1] == direction
+        ctx.check(ok, 'C12.C', fs, 'simplify(mode=%s) optimises in the documented direction (%s)' % (k, 'maximise' if direction == MAX else 'minimise'),
+                  witness={'outcome': exc or [repr(r[1]) for r in rec], 'expected direction constant': direction,
+                           'why': 'optimalPartition reacts to MODE_SEGMENTATION_MINIMIZE/MAXIMIZE only; any other value optimises nothing or the wrong way'},
+                  node=fs.node, key='simplify:' + k)
+    if served < 2:
+        raise shape_error('simplify: fewer than two modes reach the dynamic programme', fs.loc())
+    # (3) stop detection maximises its reward
+    ctx.extra['chain_cases'] = served + 6
 
 
 def rule_C(ctx):
@@ -408,9 +506,9 @@ def rule_C(ctx):
 
 
 RULES = [
-    ('C12.D', rule_D, 'quick'),
-    ('C12.R', rule_R, 'quick'),
+    ('C12.X', rule_X, 'quick'),
     ('C12.B', rule_B, 'quick'),
+    ('C12.S', rule_S, 'quick'),
     ('C12.C', rule_C, 'quick'),
 ]
-MIN_OBLIGATIONS = 12
+MIN_OBLIGATIONS = 10
